@@ -233,6 +233,10 @@ func runC08(r *Run, replay *Case) {
 		c08LayoutChain(r)
 		return
 	}
+	if replay != nil && replay.Input["stream"] == "explicit-nil" {
+		c08ExplicitNil(r)
+		return
+	}
 	if replay != nil {
 		var cs c08Case
 		remarshal(replay.Input["case"], &cs)
@@ -240,6 +244,7 @@ func runC08(r *Run, replay *Case) {
 		return
 	}
 	c08LayoutChain(r)
+	c08ExplicitNil(r)
 	r.Res.Rule = "every presence pattern of {front-matter, Fill/Assign layer, data/*.yml, theme.yml} x key addressed by JSON tag / field name x data given as map, struct, pointer-to-struct x " +
 		"every call history <= N over {fill-map, fill-struct, fill-ptr, fill-empty, assign, new, load} before the page is loaded, and histories with up to 2 calls before and up to 2 calls AFTER loading the page, x four read positions ({{ }}, bound attribute, v-if, Get); non-trivial = at least one source defines the key"
 	calls := []string{"fill-map", "fill-struct", "fill-ptr", "fill-empty", "assign", "new", "load", "fill-map-blank", "fill-struct-blank"}
